@@ -376,6 +376,15 @@ def gen_cases(tier, rng):
     for m in SPERMS:
         cases.append("inverse %s v=%s" % (xf_kv(m, [1.0, -2.0, 3.0], 2.0), fl([0.5, 0.25, -4.0])))
         cases.append("invert3 m=%s" % fl(m))
+    # well-conditioned matrices with a tiny determinant: a rotation times a small uniform factor (1/32 and 1/64 are
+    # exact in binary32; det = 2^-15 resp. 2^-18, condition number 1) - "singular" must mean det == 0, not "small"
+    for m in SPERMS:
+        for f in (0.03125, 0.015625):
+            cases.append("invert3 m=%s" % fl([x * f for x in m]))
+    for _ in range(20 if q else 200):
+        m, _k = rand_rot(rng, rng.choice(["rod", "gen"]))
+        f = rng.choice([0.04, 0.03, 0.02, 0.0125, 0.045])
+        cases.append("invert3 m=%s" % fl([x * f for x in m]))
     # Matrix3 Invert / Determinant
     for _ in range(n_main):
         m, _k = rand_rot(rng, rng.choice(["perm", "rod", "gen", "gen", "gen", "ill", "sing", "sing"]))
@@ -573,10 +582,13 @@ def eval_case(case, I, M):
             if M != I:
                 small_int = all(x == int(x) and abs(x) <= 8 for x in m)
                 if I == ["none"]:
-                    ev.fails.append(("law" if small_int else "corr", "Invert reports failure on a matrix with non-zero determinant"))
+                    ev.fails.append(("law" if small_int or wc_matrix(m) else "corr", "Invert reports failure on a matrix with non-zero determinant"))
                 else:
                     ev.fails.append(("law" if small_int else "corr", "Invert succeeds on a singular matrix (exact det = 0)"))
-                return (wc and small_int), ev, True
+                # judged when the entries are small integers (float arithmetic exact) or the matrix is well conditioned
+                # at game scale (normalised determinant >= 1e-2, Frobenius norm in [1e-2, 1e2]: the float determinant
+                # is then at least ~1e-9 in magnitude and cannot round to zero)
+                return (wc and (small_int or wc_matrix(m))), ev, True
             return wc, ev, True
         Mi = m_floats(M[0])
         mi = amax(Mi)
